@@ -277,7 +277,7 @@ def scripts(ctx):
         for n in range(1, L + 1):
             for w in itertools.product(alpha, repeat=n):
                 out.append([f"B=1={kind}"] + list(w))
-    alpha = ["R=ok", "R=refused", "I", "X=1", "X=0", "C=1", "E=up"]
+    alpha = ["R=ok", "R=refused", "I", "J", "X=1", "X=0", "C=1", "E=up"]
     for n in range(1, ctx.n(4, 6) + 1):
         for w in itertools.product(alpha, repeat=n):
             sc, tag = ["I=99", "B=1=scan"], 0
@@ -285,6 +285,9 @@ def scripts(ctx):
                 if x == "I":
                     tag += 1
                     sc.append(f"I={tag}")
+                elif x == "J":
+                    # the same result again (same channel, same value): every result callback counts
+                    sc.append(f"I={max(tag, 1)}")
                 else:
                     sc.append(x)
             out.append(sc)
@@ -302,7 +305,7 @@ def scripts(ctx):
             elif x < 0.65:
                 sc.append("E=" + rng.choice(["up", "down", "other"]))
             elif x < 0.75:
-                sc.append(f"I={rng.randrange(1, 100)}")
+                sc.append(f"I={rng.choice([7, 7, 8, rng.randrange(1, 100)])}")
             elif x < 0.85:
                 sc.append("X=" + rng.choice("110"))
             elif x < 0.93:
@@ -348,7 +351,7 @@ def run(ctx):
             ctx.sample({"version": v, "events": mev[:10], "impl": [[en, st] for _, en, st in w.events][:6]})
     ctx.cov["distinct_nontrivial"] = nontriv
     ctx.cov["rule"] = (f"formNetwork, leaveNetwork and _ensure_network_running: every event order of length 1..{ctx.n(3, 5)} over {{response ok / refused / not-joined / already-joined, matching and non-matching stack-status events, "
-                       f"timeout, cancellation}}; startScan: every order of length 1..{ctx.n(4, 6)} over {{response, result callbacks, completion ok/failed, cancellation}} with one result before the scan is issued; random scripts with up to four "
+                       f"timeout, cancellation}}; startScan: every order of length 1..{ctx.n(4, 6)} over {{response, result callbacks (new and repeated values), completion ok/failed, cancellation}} with one result before the scan is issued; random scripts with up to four "
                        "overlapping operations; handlers v4/v8/v14; non-trivial = a timeout, cancellation, refusal or more than one operation")
     ctx.exhaustive = True
 
